@@ -18,6 +18,9 @@ func verifH_C08_random() {
 	}
 	r1 := verifRandStream(0)
 	verifAssert(len(r1) == size, "reads-exactly-the-secret-size")
+	if len(r1) != size {
+		return
+	}
 	// upper-case unpadded base32 of exactly the delivered bytes, each byte used once, in order
 	verifAssertBytesEq([]byte(s1), []byte(verifEnc32(r1)), "secret-is-base32-of-the-random-bytes")
 	if size <= verifCase("decodeupto") || !verifSymbolic() {
@@ -36,6 +39,10 @@ func verifH_C08_random() {
 		return
 	}
 	r2 := verifRandStream(1)
+	verifAssert(len(r2) == size, "second-read-has-exactly-the-secret-size")
+	if len(r2) != size {
+		return
+	}
 	verifAssertBytesEq([]byte(s2), []byte(verifEnc32(r2)), "second-secret-is-base32-of-the-next-random-bytes")
 	if verifSymbolic() {
 		verifAssert(!verifDependsOnFirstStream(s2), "second-secret-independent-of-first-stream")
